@@ -428,6 +428,79 @@ fn exec_limit(t: &mut Tape, st: &mut Stats) -> Result<(), String> {
 }
 
 /// Random beyond the small scope.
+/// Stage 'huge': one chunk whose declared size lies at and beyond the 32-bit and 63-bit boundaries; only its first bytes are
+/// delivered. Every read must hand out exactly the bytes offered (bounded by the buffer), consume as many, and the body must
+/// not end, fail or sit "on a boundary" - a chunk counter narrowed to 32 bits would end the chunk after `size mod 2^32` bytes.
+fn exec_huge(t: &mut Tape, st: &mut Stats) -> Result<(), String> {
+    const SIZES: [u64; 11] = [
+        0x7fff_ffff, 0x8000_0000, 0xffff_ffff, 0x1_0000_0000, 0x1_0000_0005, 0x1_0000_0100, 0x100_0000_0003, 0x7fff_ffff_ffff_ffff,
+        0x8000_0000_0000_0000, 0xffff_ffff_ffff_fff0, 0xffff_ffff_ffff_ffff,
+    ];
+    let size = SIZES[t.below(11)];
+    let api = if t.below(2) == 0 { Api::Flow } else { Api::Call };
+    let style = t.below(3);
+    let deliver = [1usize, 6, 300, 70_000][t.below(4)];
+    let sched = t.below(4);
+    st.case_digest = t.digest();
+    st.evals(1);
+    let line = match style {
+        0 => format!("{:x}\r\n", size),
+        1 => format!("{:X}\r\n", size),
+        _ => format!("{:x};e\r\n", size),
+    };
+    let what = format!("chunk of {:#x} bytes ({:?}, size line {:?}), first {} bytes delivered, schedule {}", size, api, line, deliver, sched);
+    st.describe(|| json!({"stage": "huge", "case": what}));
+    let mut r = Reader::new(api, &Method::GET, false, HEAD)?;
+    let data = &pattern()[77..77 + deliver];
+    let mut stream = line.as_bytes().to_vec();
+    stream.extend_from_slice(data);
+    let hdr = line.len();
+    let (step_in, out_sz, stop) = match sched {
+        0 => (stream.len(), 65_536 + 8_192, false),
+        1 => (1, 7, true),
+        2 => (hdr + 1, 1, false),
+        _ => (13, 4_096, true),
+    };
+    r.set_stop(stop);
+    let mut consumed = 0usize;
+    let mut delivered = 0usize;
+    let mut arrived = 0usize;
+    let mut guard = 0usize;
+    while delivered < deliver {
+        guard += 1;
+        if guard > 4 * stream.len() + 64 {
+            return Err(format!("{}: no progress ({} of {} data bytes delivered)", what, delivered, deliver));
+        }
+        if arrived <= consumed || guard % 2 == 0 {
+            arrived = (arrived + step_in).min(stream.len());
+        }
+        let window = &stream[consumed..arrived];
+        let (c, p, bytes) = with_out(out_sz, |out| r.read(window, out).map(|(c, p)| (c, p, out[..p.min(out_sz)].to_vec())))
+            .map_err(|e| format!("{}: read failed at offset {}: {:?}", what, consumed, e))?;
+        if c > window.len() || p > out_sz {
+            return Err(format!("{}: read reported ({}, {}) for a window of {} and a buffer of {}", what, c, p, window.len(), out_sz));
+        }
+        if bytes[..] != data[delivered..delivered + p.min(deliver - delivered)] || delivered + p > deliver {
+            return Err(format!("{}: output differs from the chunk data at data offset {}", what, delivered));
+        }
+        consumed += c;
+        delivered += p;
+        // the size line is consumed whole, then data bytes one for one
+        if consumed > 0 && consumed != hdr + delivered && !(consumed < hdr && delivered == 0) {
+            return Err(format!("{}: {} bytes consumed for a {}-byte size line and {} data bytes", what, consumed, hdr, delivered));
+        }
+        if r.ended() || r.can_proceed() == Some(true) {
+            return Err(format!("{}: body reported ended after {} data bytes", what, delivered));
+        }
+        if delivered > 0 && r.on_boundary() {
+            return Err(format!("{}: reported on a chunk boundary {} bytes into the chunk", what, delivered));
+        }
+    }
+    st.class("huge_chunk_prefix");
+    st.count_nontrivial(1);
+    Ok(())
+}
+
 fn exec_random(t: &mut Tape, st: &mut Stats) -> Result<(), String> {
     let api = if t.bool() { Api::Call } else { Api::Flow };
     let many_tiny = t.chance(1);
@@ -606,6 +679,13 @@ no stall once everything arrived, (0,0) after the end. non-trivial = every (codi
             tape: |_, idx| crate::infra::runner::radix(idx, &[4, 3, 2, 4]),
             exhaustive: true,
             exec: Some(exec_limit),
+        },
+        EnumDef {
+            name: "huge",
+            count: |_t: Tier| 11 * 2 * 3 * 4 * 4,
+            tape: |_, idx| crate::infra::runner::radix(idx, &[11, 2, 3, 4, 4]),
+            exhaustive: true,
+            exec: Some(exec_huge),
         },
         EnumDef {
             name: "pairs",
